@@ -92,6 +92,21 @@ CORE_PARAM = {
     "next_rank": {"Rank"}, "attrs": {"RankAttrs"}, "root": {"Fiber", "Payload"},
     "memo": {DICT},
 }
+# parameter names that always denote immutable scalars / tuples / id lists
+# in this code base (never a tree object); they carry no alias root
+IMM_PARAMS = {
+    "start", "end", "step", "interval", "depth", "levels", "rank_id",
+    "rankid", "style", "coord_style", "density", "seed", "size", "partitions",
+    "tick", "trace", "title", "format", "indent", "cutoff", "newline",
+    "coord_fmt", "payload_fmt", "level", "all_ranks", "authoritative",
+    "recursive", "allocate", "preserve_owner", "addtorank", "yamlfile",
+    "filename", "name", "color", "fmt", "pre_halo", "post_halo",
+    "relativeCoords", "relative", "new_shape", "new_rank_id", "coord_ex",
+    "max_coord", "ordered", "unique", "active_range", "interval", "position",
+    "pos", "distance", "estimated_shape", "is_lazy", "spec", "consumable",
+    "prefix", "type_", "iteration_num", "line", "metric", "inc", "rank",
+    "file", "message", "num_cached_uses", "clear", "mode"}
+
 FUNC_PARAM = {
     ("core/iterators.py", "other"): {"Fiber"},
     ("core/fiber.py", "other"): {"Fiber", IMM},
@@ -166,14 +181,15 @@ PARAM = "<param>"
 
 
 class Fact:
-    __slots__ = ("kind", "value", "path", "stmt", "always")
+    __slots__ = ("kind", "value", "path", "stmt", "always", "scope")
 
-    def __init__(self, kind, value, path, stmt, always):
+    def __init__(self, kind, value, path, stmt, always, scope=None):
         self.kind = kind
         self.value = value
         self.path = path
         self.stmt = stmt
         self.always = always
+        self.scope = scope      # comprehension node binding the name, if any
 
     def __iter__(self):
         yield self.kind
@@ -266,18 +282,18 @@ class Typing:
             return self._assigns[func]
         facts = {}
 
-        def put(name, kind, value, path, stmt, always=False):
+        def put(name, kind, value, path, stmt, always=False, scope=None):
             facts.setdefault(name, []).append(
-                Fact(kind, value, tuple(path), stmt, always))
+                Fact(kind, value, tuple(path), stmt, always, scope))
 
-        def bind(target, kind, value, stmt, path=(), always=False):
+        def bind(target, kind, value, stmt, path=(), always=False, scope=None):
             if isinstance(target, ast.Name):
-                put(target.id, kind, value, path, stmt, always)
+                put(target.id, kind, value, path, stmt, always, scope)
             elif isinstance(target, (ast.Tuple, ast.List)):
                 for i, el in enumerate(target.elts):
                     if isinstance(el, ast.Starred):
                         el = el.value
-                    bind(el, kind, value, stmt, path + (i,), always)
+                    bind(el, kind, value, stmt, path + (i,), always, scope)
             elif isinstance(target, ast.Subscript) and \
                     isinstance(target.value, ast.Name) and kind == "expr" and not path:
                 put(target.value.id, "add", value, (), stmt, True)
@@ -297,7 +313,8 @@ class Typing:
             elif isinstance(n, (ast.For, ast.AsyncFor)):
                 bind(n.target, "elem", n.iter, n)
             elif isinstance(n, ast.comprehension):
-                bind(n.target, "elem", n.iter, enclosing_stmt(n), always=True)
+                bind(n.target, "elem", n.iter, enclosing_stmt(n), always=True,
+                     scope=getattr(n, "_parent", None))
             elif isinstance(n, ast.NamedExpr):
                 bind(n.target, "expr", n.value, enclosing_stmt(n), always=True)
             elif isinstance(n, ast.With):
@@ -367,6 +384,16 @@ class Typing:
         Flow-sensitive when `node` lies in `func`'s own body."""
         allf = self.assignments(func).get(name, [])
         is_param = name in func.all_param_names()
+        if node is not None and any(fa.scope is not None for fa in allf):
+            # comprehension variables live in the comprehension's own scope
+            from .cfg import ancestors
+            anc = set(id(a) for a in ancestors(node))
+            inside = [fa for fa in allf if fa.scope is not None and id(fa.scope) in anc]
+            if inside:
+                return inside, False
+            allf = [fa for fa in allf if fa.scope is None]
+            if not allf and not is_param:
+                return [], False
         if node is None or not allf:
             return allf, is_param
         from .cfg import enclosing_stmt
@@ -411,6 +438,9 @@ class Typing:
             out = merge(out, fp)
         elif not func.module.rel.startswith("codec/") and name in CORE_PARAM:
             out = merge(out, set(CORE_PARAM[name]))
+        elif not func.module.rel.startswith("codec/") and name in IMM_PARAMS \
+                and not out:
+            out = {IMM}
         for st in func.body:
             if isinstance(st, ast.Assert):
                 out = merge(out, self._isinstance_types(st.test, name))
